@@ -38,8 +38,10 @@ OPS = ["pause", "play", "stop"]
 
 def strat(lines):
   def build(tier):
-    audio = st.one_of(st.lists(st.sampled_from(VALS), max_size=9),
-                      st.lists(st.sampled_from(VALS), min_size=1, max_size=3).map(lambda l: ("endless", l)))
+    audio = st.one_of(st.lists(st.sampled_from(VALS), max_size=9), st.lists(st.sampled_from(VALS), max_size=9),
+                      st.lists(st.sampled_from(VALS), min_size=1, max_size=3).map(lambda l: ("endless", l)),
+                      # a recording of the same manager played back (endless input device)
+                      st.integers(1, 3).map(lambda k: ("record", [k])))
     player = st.fixed_dictionaries(dict(audio=audio, chunk=st.one_of(st.integers(1, 4), st.integers(1, 4), st.none()),
                                         channels=st.integers(1, 2)))
     ctl = st.lists(st.one_of(
@@ -51,7 +53,7 @@ def strat(lines):
       players=st.lists(player, min_size=1, max_size=3),
       extra=st.lists(player, max_size=2),
       ctl=ctl, wait=st.booleans(),
-      end=st.sampled_from(["close", "with", "terminate", "close twice"]),
+      end=st.sampled_from(["close", "with", "terminate", "close twice", "with, left by an exception"]),
       schedule=st.lists(st.integers(0, 3), max_size=maxs),
       # chunk=None plays with the documented default chunk size (chunks.size, set small for the case);
       # the chunk packing strategy is the documented switch chunks.default
@@ -110,7 +112,9 @@ def run_case(c):
 
   def start(io, p):
     audio = p["audio"]
-    if isinstance(audio, tuple):
+    if isinstance(audio, tuple) and audio[0] == "record":
+      data = io.record(chunk_size=audio[1][0])
+    elif isinstance(audio, tuple):
       data = itertools.cycle(list(audio[1]))
     else:
       data = iter(list(audio))
@@ -129,7 +133,7 @@ def run_case(c):
       sys.settrace(tracer)
     try:
       io = lazy_io.AudioIO(wait=c["wait"])
-      if c["end"] == "with":
+      if c["end"].startswith("with"):
         io.__enter__()
       for p in players:
         start(io, p)
@@ -142,6 +146,9 @@ def run_case(c):
           getattr(threads[i], op)()
       if c["end"] == "with":
         io.__exit__(None, None, None)
+      elif c["end"] == "with, left by an exception":
+        err = KeyError("raised inside the with-block")
+        io.__exit__(KeyError, err, None)
       elif c["end"] == "terminate":
         io.terminate()
       else:
@@ -192,7 +199,11 @@ def run_case(c):
         raise Violation("player %d wrote a chunk of %d frames / %d bytes, chunk_size is %d x %d channels; %s"
                         % (k, frames, len(data), n, ch, ctx))
     got = b"".join(d for d, _ in fs.chunks)
-    if isinstance(p["audio"], tuple):
+    if isinstance(p["audio"], tuple) and p["audio"][0] == "record":
+      need = [(i % 64) / 8. for i in range(len(got) // 4)]
+      exp = struct.pack("%df" % len(need), *need)
+      whole = None
+    elif isinstance(p["audio"], tuple):
       cyc = itertools.cycle(p["audio"][1])
       need = [next(cyc) for _ in range(len(got) // 4)]
       exp = struct.pack("%df" % len(need), *need)
@@ -214,6 +225,12 @@ def run_case(c):
       raise Violation("player %d: device stream closed %d times; %s" % (k, th.stream.closed, ctx))
   if pa._streams:
     raise Violation("%d device streams survive close; %s" % (len(pa._streams), ctx))
+  if getattr(io, "_recordings", None):
+    raise Violation("%d recordings still registered after close; %s" % (len(io._recordings), ctx))
+  for f in pa.opened:
+    if f.closed != 1:
+      raise Violation("a device stream (%s) was closed %d times; %s"
+                      % ("input" if f.kw.get("input") else "output", f.closed, ctx))
   if pa.terminated != 1:
     raise Violation("backend terminated %d times; %s" % (pa.terminated, ctx))
   if out.get("play_after") != "raises":
@@ -234,6 +251,8 @@ def run_case(c):
     labels.append("stop then close")
   if any(isinstance(p["audio"], tuple) for p in specs):
     labels.append("endless audio")
+  if any(isinstance(p["audio"], tuple) and p["audio"][0] == "record" for p in specs):
+    labels.append("plays a recording")
   if any(p.get("default_chunk") for p in specs):
     labels.append("default chunk size")
   labels.append("chunks." + c.get("strategy", "struct"))
